@@ -285,7 +285,49 @@ def r6(ctx):
     ctx.floor(R, 1)
 
 
+def r8(ctx):
+    R = "C04-R8"
+    ctx.rule(R, "peers of a host that goes away are told: (a) a connect that is abandoned (its host crashes, the future is dropped, it times "
+                "out) after the listener already answered the SYN leaves an *established* stream on the peer - so ConnectGuard::drop must "
+                "look at the acknowledgement and send a RST (World::send_message / send_loopback with Segment::Rst) before it removes the "
+                "local entry; (b) the RST arm of Tcp::receive_from_network, which removes the socket, wakes a writer parked on flow-control "
+                "credits (a call on the removed socket's flow control), otherwise a peer blocked in write never learns the connection is gone")
+    gd = ctx.w.drop_impl("turmoil::net::tcp::stream::ConnectGuard")
+    if not gd:
+        if ctx.strict:
+            ctx.bad(R, "anchor-missing:ConnectGuard::drop", "", "Drop for ConnectGuard not found")
+    else:
+        sends = False
+        for fb in ctx.w.family(gd):
+            for bb, t in fb.calls(re.compile(r"World::send_message$|tcp::stream::send_loopback$")):
+                if any(s["r"]["k"] == "agg" and s["r"].get("adt") == "turmoil::envelope::Segment" and s["r"].get("variant") == "Rst" for _, _, s in fb.all_stmts()):
+                    sends = True
+        ctx.inst(R, "connect-guard:tells-the-peer", sends, ctx.w.bodies[gd].span, "an abandoned connect that was already answered resets the peer's stream" if sends else
+                 "ConnectGuard::drop only removes the local stream-table entry: when the listener has already fired the SYN-ACK (accept() returned an established stream) "
+                 "and the connecting host then crashes or drops the future, the peer is never told - its read blocks for the rest of the run")
+    rf = ctx.body(R, "turmoil::host::Tcp::receive_from_network")
+    if rf:
+        rst = [m["Rst"] for sbb, m, els, adt, pl in variant_edges(rf, lambda p: True) if adt == "turmoil::envelope::Segment" and "Rst" in m]
+        wakes = False
+        if rst:
+            for x in rf.reachable(rst[0][1]):
+                if not rf.dominated_by_edge(x, rst[0]):
+                    continue
+                t = rf.term(x)
+                if t["k"] == "call" and in_repo(t["f"]) and any("field:turmoil::host::StreamSocket::flow_control" in Slicer(ctx.w).atoms(rf, a) or
+                                                                  "FlowControl" in rf.tys[i]["s"] for a, i in zip(t["args"], t.get("at", [None] * len(t["args"])) ) if i is not None or True):
+                    if any("field:turmoil::host::StreamSocket::flow_control" in Slicer(ctx.w).atoms(rf, a) for a in t["args"]):
+                        wakes = True
+        dropw = any(ctx.w.drop_impl(a) for a in ("turmoil::host::StreamSocket", "turmoil::net::tcp::stream::FlowControl", "turmoil::net::tcp::stream::BidiFlowControl"))
+        ok = wakes or dropw
+        ctx.inst(R, "rst:wakes-blocked-writer", ok, rf.term(rst[0][1]).get("s", rf.span) if rst else rf.span, "a RST wakes the write side" if ok else
+                 "the Rst arm removes the socket without touching its flow control: a peer that used up its credits and is parked in write is never woken "
+                 "(write-only peer of a crashed host: hangs after the crash, and after the bounce although its table entry is gone)")
+    ctx.floor(R, 2)
+
+
 def run(ctx):
+    r8(ctx)
     scan_rule(ctx, "C04")
     r1(ctx)
     r2(ctx)
